@@ -155,7 +155,7 @@ tokFilled:
 
 	start.Head = expr
 
-	tok, err = lexer.PeekNextToken(0)
+	tok, err = parser.ParserPeekNextToken(0)
 	if err != nil {
 		return SexpNull, err
 	}
@@ -169,7 +169,11 @@ tokFilled:
 			return SexpNull, err
 		}
 
-		// eat up the end paren
+		// eat up the end paren; it may arrive with the next piece of input
+		_, err = parser.ParserPeekNextToken(0)
+		if err != nil {
+			return SexpNull, err
+		}
 		tok, err = lexer.GetNextToken()
 		if err != nil {
 			return SexpNull, err
@@ -258,7 +262,14 @@ func (parser *Parser) ParseExpression(depth int) (res Sexp, err error) {
 	lexer := parser.lexer
 	env := parser.env
 
-	//getAnother:
+	if depth > 0 {
+		// an operand is required here (after a quote, a backslash, ...):
+		// wait for it instead of taking the end of a piece for a value.
+		_, err = parser.ParserPeekNextToken(0)
+		if err != nil {
+			return SexpEnd, err
+		}
+	}
 	tok, err := lexer.GetNextToken()
 	if err != nil {
 		return SexpEnd, err
